@@ -112,14 +112,28 @@ Theorem C19_call_lib_error_ignores_rest : forall (ffi : str -> str -> list value
 Proof. exact call_lib_error_ignores_rest. Qed.
 Print Assumptions C19_call_lib_error_ignores_rest.
 
-(* non-vacuity: a foreign world with one library [108] exporting `e` [101] (returns a string for the arguments
-   [VInt 5; VStr "a"]), `n` [110] (nothing) and `x` [120] (raises "boom"); programs print a marker, call, print the
-   stack, print a marker *)
+(* a run consults the foreign world only at (library, symbol) pairs named together by one of its call_lib
+   instructions: no resolution is remembered from one call to the next *)
+Check run_consults_named_pairs_only :
+  forall (ffi1 ffi2 : str -> str -> list value -> ffi_outcome) (prog : list instr),
+  (forall lib f args, In (CallLib lib f) prog -> ffi1 lib f args = ffi2 lib f args) ->
+  forall (ip : nat) (s : vm), run_from ffi1 ip prog s = run_from ffi2 ip prog s.
+Theorem C19_run_consults_named_pairs_only :
+  forall (ffi1 ffi2 : str -> str -> list value -> ffi_outcome) (prog : list instr),
+  (forall lib f args, In (CallLib lib f) prog -> ffi1 lib f args = ffi2 lib f args) ->
+  forall (ip : nat) (s : vm), run_from ffi1 ip prog s = run_from ffi2 ip prog s.
+Proof. exact run_consults_named_pairs_only. Qed.
+Print Assumptions C19_run_consults_named_pairs_only.
+
+(* non-vacuity: a foreign world with library [108] exporting `e` [101] (returns "ok" for the arguments
+   [VInt 5; VStr "a"]), `n` [110] (nothing) and `x` [120] (raises "boom"), and a second library [76] exporting only `e`,
+   which answers "L2"; programs print a marker, call, print the stack, print a marker *)
 Definition world : str -> str -> list value -> ffi_outcome :=
-  table_ffi [[108]] [[101]; [110]; [120]]
-    [ ([101], [VInt 5; VStr [97]], Value (VStr [111; 107]));
-      ([110], [VInt 5; VStr [97]], NoValue);
-      ([120], [VInt 5; VStr [97]], Raised [98; 111; 111; 109]) ].
+  table_ffi [ ([108], [[101]; [110]; [120]]); ([76], [[101]]) ]
+    [ ([108], [101], [VInt 5; VStr [97]], Value (VStr [111; 107]));
+      ([108], [110], [VInt 5; VStr [97]], NoValue);
+      ([108], [120], [VInt 5; VStr [97]], Raised [98; 111; 111; 109]);
+      ([76], [101], [VInt 5; VStr [97]], Value (VStr [76; 50])) ].
 
 Definition prog (lib f : str) : list instr :=
   [Push (VStr [98]); PrintN; Void; Push (VInt 5); Push (VStr [97]); CallLib lib f; PrintN; Void; Push (VStr [97]); PrintN; Void; RetMod].
@@ -147,4 +161,23 @@ Proof. vm_compute. reflexivity. Qed.
 
 Example C19_nosymbol : summary (run world (prog [108] [122])) =
   (3%N, [[VStr [98]]], [(0, 0); (1, 1); (2, 1); (3, 0); (4, 1); (5, 2)]%nat, [], [122]).
+Proof. vm_compute. reflexivity. Qed.
+
+(* histories: the same symbol `e` called in library [108], then in library [76] (the second library's `e` answers), then
+   in a library that does not exist (error, nothing after it runs), resp. `n` in the library that lacks it *)
+Definition history (lib3 f3 : str) : list instr :=
+  [Push (VInt 5); Push (VStr [97]); CallLib [108] [101]; PrintN; Void;
+   Push (VInt 5); Push (VStr [97]); CallLib [76] [101]; PrintN; Void;
+   Push (VInt 5); Push (VStr [97]); CallLib lib3 f3; PrintN; Void; RetMod].
+
+Example C19_history_missing_library_after_success : summary (run world (history [109] [101])) =
+  (2%N, [[VStr [111; 107]]; [VStr [76; 50]]],
+   [(0, 0); (1, 1); (2, 2); (3, 1); (4, 1); (5, 0); (6, 1); (7, 2); (8, 1); (9, 1); (10, 0); (11, 1); (12, 2)]%nat,
+   [([108], [101], [VInt 5; VStr [97]]); ([76], [101], [VInt 5; VStr [97]])], [109]).
+Proof. vm_compute. reflexivity. Qed.
+
+Example C19_history_symbol_missing_in_second_library : summary (run world (history [76] [110])) =
+  (3%N, [[VStr [111; 107]]; [VStr [76; 50]]],
+   [(0, 0); (1, 1); (2, 2); (3, 1); (4, 1); (5, 0); (6, 1); (7, 2); (8, 1); (9, 1); (10, 0); (11, 1); (12, 2)]%nat,
+   [([108], [101], [VInt 5; VStr [97]]); ([76], [101], [VInt 5; VStr [97]])], [110]).
 Proof. vm_compute. reflexivity. Qed.
